@@ -6,6 +6,10 @@ CONSTANTS Keys <- Keys5
  MaxOld = 0
  ReopenModes = {"same", "fresh", "restart"}
  Ticking = FALSE
+ NH = 1
+ Vias = {"delete", "empty"}
+ Flushes = {FALSE, TRUE}
  Merge = TRUE
 INVARIANTS TypeOK InsertKeepsCanonical DeleteKeepsCanonical ReadsLastWritten RootBindsContent
+PROPERTIES OneHandleChanges
 CHECK_DEADLOCK FALSE
